@@ -196,8 +196,11 @@ fn small_str(ctx: &mut Ctx, max: usize) -> String {
         let r = ctx.rng.random_range(0..100);
         if r < 92 {
             s.push(alpha[ctx.rng.random_range(0..if r < 10 { 5 } else { 4 })]);
-        } else if r < 96 {
+        } else if r < 95 {
             s.push('\u{301}');
+        } else if r < 97 {
+            // one cluster of two ASCII bytes in grapheme mode
+            s.push_str("\r\n");
         } else {
             s.push(gen::pick(&mut ctx.rng, gen::LETTERS));
         }
@@ -239,6 +242,7 @@ pub fn run_c12(ctx: &mut Ctx) {
         ("", ""), ("", "a"), ("a", ""), (" ", "x"), ("ab", "ba"), ("this is a test", "tihsi s a test"),
         ("a b", "ab"), ("ab", "a b"), ("abc", "cab"), ("a\u{301}b", "ab"),
     ];
+    let corpus3: [(&str, &str); 3] = [("a\r\nb", "a\nb"), ("a\r\nb", "ab"), ("\r\n", "\n\r")];
     let corpus2: [(&str, &str); 4] = [("a b", "a\tb"), (" ", "\t"), ("a\u{3000}b c", "a b\tc"), ("\t a", " \ta")];
     let all_flags = |ctx: &mut Ctx, a: &str, b: &str, gs: &[bool]| {
         for &g in gs {
@@ -258,6 +262,9 @@ pub fn run_c12(ctx: &mut Ctx) {
             all_flags(ctx, a, b, &[false, true]);
         }
         for (a, b) in corpus2 {
+            all_flags(ctx, a, b, &[false, true]);
+        }
+        for (a, b) in corpus3 {
             all_flags(ctx, a, b, &[false, true]);
         }
     }
